@@ -40,6 +40,8 @@ pub enum Fault {
     Short(usize),
     Stall,
     Garbage,
+    /// a complete n-byte answer, then the backend connection is closed in the same turn
+    AnswerThenClose(usize),
     /// HTTP/1.1 backend: the first n bytes of a response (head about 80 bytes, body 1000), then close
     H1DieAt(usize),
 }
@@ -74,6 +76,7 @@ fn path_of(f: &Fault) -> String {
         Fault::CloseBefore => "/close-before".into(),
         Fault::Short(n) => format!("/short/{n}"),
         Fault::Stall => "/stall".into(),
+        Fault::AnswerThenClose(n) => format!("/close-after/{n}"),
         Fault::Garbage => "/garbage".into(),
         Fault::H1DieAt(n) => format!("/die/{n}"),
     }
@@ -85,6 +88,7 @@ fn fault_class(f: &Fault) -> String {
         Fault::RstMid(n) => format!("rst-mid-{}", if *n == 0 { "head-only" } else { "inside-body" }),
         Fault::CloseMid(n) => format!("close-mid-{}", if *n == 0 { "head-only" } else { "inside-body" }),
         Fault::Short(n) => format!("short-{}", if *n == 0 { "empty" } else { "inside-body" }),
+        Fault::AnswerThenClose(n) => format!("answer-then-close-{}", if *n < 16384 { "small" } else { "several-frames" }),
         Fault::H1DieAt(n) => format!("h1-die-{}", if *n == 0 { "before-response" } else if *n < H1_HEAD { "inside-head" } else if *n < H1_HEAD + 1000 { "inside-body" } else { "after-response" }),
         other => format!("{other:?}").to_lowercase(),
     }
@@ -230,7 +234,7 @@ pub fn run_case(case: &Case, prefix: Vec<u32>, profile: ChoiceProfile) -> Run {
     }
     // ---- judge
     // (HTTP/1.1 backend connections carry one exchange each: a dying one takes no sibling with it)
-    let tears_backend_connection = case.back == Proto::H2 && matches!(case.fault, Fault::CloseMid(_) | Fault::CloseBefore | Fault::Garbage);
+    let tears_backend_connection = case.back == Proto::H2 && matches!(case.fault, Fault::CloseMid(_) | Fault::CloseBefore | Fault::Garbage | Fault::AnswerThenClose(_));
     for (i, (label, path)) in reqs.iter().enumerate() {
         let Some(out) = outcomes.get(i) else { continue };
         if *label == "sibling" {
@@ -253,14 +257,18 @@ pub fn run_case(case: &Case, prefix: Vec<u32>, profile: ChoiceProfile) -> Run {
             }
             continue;
         }
-        let healthy_body = if matches!(case.fault, Fault::H1DieAt(_)) { vec![b'x'; 1000] } else { h1::coded_body((1000 % 251) as u8, 1000) };
+        let healthy_body = match case.fault {
+            Fault::H1DieAt(_) => vec![b'x'; 1000],
+            Fault::AnswerThenClose(n) => h1::coded_body((n % 251) as u8, n),
+            _ => h1::coded_body((1000 % 251) as u8, 1000),
+        };
         let started_allowed: bool = match &case.fault {
             Fault::RstMid(_) | Fault::CloseMid(_) | Fault::Short(_) => true,
             Fault::H1DieAt(n) => *n >= H1_HEAD && *n < H1_HEAD + 1000,
             _ => false,
         };
         let statuses: &[u16] = match &case.fault {
-            Fault::Healthy | Fault::GoawayThenAnswer => &[200],
+            Fault::Healthy | Fault::GoawayThenAnswer | Fault::AnswerThenClose(_) => &[200],
             Fault::GoawayRefuseOnce => &[200, 502, 503],
             Fault::Rst(_) | Fault::CloseBefore => &[502, 503],
             Fault::Garbage => &[502, 503],
@@ -269,10 +277,13 @@ pub fn run_case(case: &Case, prefix: Vec<u32>, profile: ChoiceProfile) -> Run {
             Fault::H1DieAt(n) if *n >= H1_HEAD + 1000 => &[200],
             Fault::RstMid(_) | Fault::CloseMid(_) | Fault::Short(_) | Fault::H1DieAt(_) => &[502, 503],
         };
+        // the whole 1000-byte body was sent before the cut: a client that got all of it holds a complete response
+        let all_sent = matches!(&case.fault, Fault::RstMid(n) | Fault::CloseMid(n) | Fault::Short(n) if *n >= 1000);
         match out {
+            Outcome::Complete(200, body) if all_sent && *body == h1::coded_body(9, 1000) => {}
             Outcome::Complete(200, body) if statuses.contains(&200) => {
                 if *body != healthy_body {
-                    flag("relayed-response-damaged".into(), format!("200 relayed with {} body bytes instead of 1000", body.len()));
+                    flag("relayed-response-damaged".into(), format!("200 relayed with {} body bytes instead of {}", body.len(), healthy_body.len()));
                 }
             }
             Outcome::Complete(200, body) => {
@@ -283,7 +294,7 @@ pub fn run_case(case: &Case, prefix: Vec<u32>, profile: ChoiceProfile) -> Run {
             Outcome::Complete(st, _) => flag(format!("wrong-status-{st}"), format!("answered {st}, the cause ({:?}) calls for one of {statuses:?}", case.fault)),
             Outcome::Aborted { started: true } if started_allowed => {}
             // an HTTP/2 stream may be refused / reset instead of answered when nothing was relayed
-            Outcome::Aborted { started: false } if case.front == Proto::H2 && !matches!(case.fault, Fault::Healthy | Fault::GoawayThenAnswer | Fault::Stall) => {}
+            Outcome::Aborted { started: false } if case.front == Proto::H2 && !matches!(case.fault, Fault::Healthy | Fault::GoawayThenAnswer | Fault::Stall | Fault::AnswerThenClose(_)) => {}
             Outcome::Aborted { started: false } if started_allowed => {}
             Outcome::Aborted { started } => flag(if *started { "aborted-after-start" } else { "closed-without-answer" }.into(), format!("the request was cut off (response started: {started}) although the cause ({:?}) calls for a complete answer {statuses:?}", case.fault)),
             Outcome::Nothing => flag("unanswered".into(), format!("the request was never answered (run {end:?} after {vms} virtual ms)")),
@@ -338,7 +349,7 @@ fn show(o: &Outcome) -> String {
 pub fn cases(tier: Tier) -> Vec<Case> {
     let mut v = vec![];
     let h2_faults = |tier: Tier| {
-        let mut f = vec![Fault::Healthy, Fault::GoawayThenAnswer, Fault::GoawayRefuseOnce, Fault::Rst(2), Fault::Rst(7), Fault::Rst(8), Fault::Rst(11), Fault::CloseBefore, Fault::Stall, Fault::Garbage];
+        let mut f = vec![Fault::Healthy, Fault::AnswerThenClose(100), Fault::AnswerThenClose(38400), Fault::GoawayThenAnswer, Fault::GoawayRefuseOnce, Fault::Rst(2), Fault::Rst(7), Fault::Rst(8), Fault::Rst(11), Fault::CloseBefore, Fault::Stall, Fault::Garbage];
         let offsets: &[usize] = if tier == Tier::Quick { &[0, 1, 999] } else { &[0, 1, 9, 500, 999, 1000] };
         for &n in offsets {
             f.push(Fault::RstMid(n));
